@@ -34,9 +34,9 @@ CONJ_TEXT = {
 def _plan(ctx):
     if ctx.tier == "quick":
         return dict(model=dict(mode="cyc", total=2, tapelen=3, tapemax=6),
-                    gens=[("rnd", dict(total=3, ntapes=1)), ("big", dict(nbig=600, ntapes=1)), ("typed", dict(nbig=120))])
+                    gens=[("rnd", dict(total=3, ntapes=1)), ("big", dict(nbig=600, ntapes=1)), ("typed", dict(nbig=120)), ("wide", dict(nbig=24))])
     return dict(model=dict(mode="cyc", total=3, tapelen=3, tapemax=6),
-                gens=[("rnd", dict(total=3, ntapes=10)), ("big", dict(nbig=12000, ntapes=3)), ("typed", dict(nbig=1500))])
+                gens=[("rnd", dict(total=3, ntapes=10)), ("big", dict(nbig=12000, ntapes=3)), ("typed", dict(nbig=1500)), ("wide", dict(nbig=96))])
 
 
 def _cases_from(emitted, mode, start):
